@@ -4,6 +4,8 @@ use crate::cases::Case;
 use crate::choices::Choices;
 use crate::engine::{Property, Stats};
 use crate::exec::{guarded, run_history, snap, Snap, StepCx, Visitor};
+#[allow(unused_imports)]
+use alloy_rlp::Decodable as _;
 use crate::gen::history;
 use crate::keys::{Fam, FamId, ALL_FAMS};
 use crate::props::hist::*;
@@ -189,7 +191,61 @@ impl Property for C15 {
     }
     fn enumerate(&self, quick: bool) -> Box<dyn Iterator<Item = Case> + Send + '_> {
         let fams: Vec<FamId> = if quick { vec![FamId::K256, FamId::Ed] } else { ALL_FAMS.to_vec() };
-        Box::new(fams.into_iter().flat_map(move |f| history::exhaustive(f, if quick { 1 } else { 2 })).map(Case::Hist))
+        let hists = fams.into_iter().flat_map(move |f| history::exhaustive(f, if quick { 1 } else { 2 })).map(Case::Hist);
+        // pairs of independently made wire records that share some of {seq, key, content, signature}:
+        // same content under two keys, same key with two contents, and records under the small-order
+        // ed25519 key in its different encodings (same signature bytes, different key bytes)
+        let n = if quick { 60u64 } else { 1500 };
+        let pairs = (0..n).map(|j| {
+            use crate::gen::wire;
+            let e = crate::choices::det_entropy("c15/pairs", j, 1400);
+            let mut c = Choices::new(&e);
+            let mut d = wire::gen_valid_draft(&mut c);
+            if d.size_with_sig(64) > 300 {
+                wire::solve_size(&mut d, 300, &mut c);
+            }
+            let a = wire::valid_bytes(&d);
+            let mut items = vec![a.clone(), a];
+            // same content, other key of the scheme
+            let mut d2 = d.clone();
+            if d2.forced_sig.is_none() {
+                d2.secret = wire::pick_secret(&mut c, d.scheme);
+                d2.set(d.scheme.key_name(), crate::refmodel::rlp::encode_str(&wire::ref_pk(d.scheme, &d2.secret)));
+                items.push(wire::valid_bytes(&d2));
+            }
+            // same key, seq + 1
+            let mut d3 = d.clone();
+            d3.seq_raw = crate::refmodel::rlp::encode_uint(j + 2);
+            items.push(wire::valid_bytes(&d3));
+            // the three encodings of the neutral ed25519 point with the universal signature
+            for enc in 0..3u8 {
+                let mut pk = [0u8; 32];
+                match enc {
+                    0 => pk[0] = 1,
+                    1 => {
+                        pk = [0xff; 32];
+                        pk[0] = 0xee;
+                        pk[31] = 0x7f;
+                    }
+                    _ => {
+                        pk[0] = 1;
+                        pk[31] = 0x80;
+                    }
+                }
+                let mut w = d.clone();
+                w.remove(b"secp256k1");
+                w.scheme = crate::refmodel::record::Scheme::Ed;
+                w.set(b"ed25519", crate::refmodel::rlp::encode_str(&pk));
+                let mut sig = vec![0u8; 64];
+                sig[0] = 1;
+                w.forced_sig = Some(sig);
+                if w.size_with_sig(64) <= 300 {
+                    items.push(wire::valid_bytes(&w));
+                }
+            }
+            Case::Stream(crate::cases::StreamCase { items, suffix: vec![], as_list: false, label: "pairs".into() })
+        });
+        Box::new(hists.chain(pairs))
     }
     fn fuzz_plans(&self) -> Vec<(&'static str, u64)> {
         vec![("history", 5000)]
@@ -200,6 +256,35 @@ impl Property for C15 {
     fn check(&self, case: &Case, st: &mut Stats) -> Result<(), String> {
         let h = match case {
             Case::Hist(h) => h,
+            Case::Stream(s) => {
+                // records that did not come out of one history: decode each item and relate all pairs
+                for kt in crate::refmodel::record::ALL_KEY_TYPES {
+                    crate::with_key_type!(kt, K => {
+                        let recs: Vec<(Enr<K>, Snap, usize)> = s
+                            .items
+                            .iter()
+                            .enumerate()
+                            .filter_map(|(n, b)| guarded(|| Enr::<K>::decode(&mut b.as_slice())).ok().and_then(|r| r.ok()).map(|e| (n, e)))
+                            .map(|(n, e)| {
+                                let sn = snap(&e);
+                                (e, sn, n)
+                            })
+                            .collect();
+                        for i in 0..recs.len() {
+                            for j in 0..recs.len() {
+                                if relate::<K>(&recs[i].0, &recs[i].1, &recs[j].0, &recs[j].1, st).map_err(|m| format!("[{kt:?}] decoded items {} and {}: {m}", recs[i].2, recs[j].2))? && i != j {
+                                    st.nontrivial(&(kt, i, j, &s.items));
+                                }
+                            }
+                        }
+                        if recs.len() >= 2 {
+                            st.label("wire-pairs");
+                            st.sample("wire-pair", || json!(case));
+                        }
+                    });
+                }
+                return Ok(());
+            }
             _ => return Err("C15: wrong case type".into()),
         };
         let mut v = V { st, recs: Vec::new(), nontrivial: false, stop: false };
